@@ -22,7 +22,7 @@ func init() {
 		Exhaustive: []string{"exh1", "exh2", "exh3"},
 		Rule: "exhaustive: every predicate-free path of 1 step (12 axes x 7 node tests) and of 2 steps (all 144 axis pairs x tests x {/,//} x {relative,absolute}), " +
 			"explicit and abbreviated, thorough tier also all 1728 axis triples; evaluated from EVERY node (root, elements, attributes, text, comments) of every ordered tree shape with <= N elements over labels {a,b} " +
-			"and of seeded random trees; plus seeded random paths of 1-5 steps. A case is (path, document, context); it is non-trivial when the reference denotation is non-empty; distinct by (path text, document, context).",
+			"and of seeded random trees; plus seeded random paths of 1-5 steps; plus predicate-free paths over every axis on a document with 1100 same-named siblings, 1100 attributes on one element and a chain of 1100 nested elements (sizes beyond 256 and 1024). A case is (path, document, context); it is non-trivial when the reference denotation is non-empty; distinct by (path text, document, context).",
 		Assume: []string{"the reference evaluator internal/xref implements the XPath 1.0 denotation of location paths (validated by conformance vectors and algebraic self-checks at setup time)",
 			"the harness navigator internal/xdoc has xmlquery/htmlquery cursor semantics"},
 		MinNontrivial: tierN(20000, 200000),
@@ -38,6 +38,7 @@ func init() {
 				return len(c01Paths3())
 			}, Run: func(c *Case) { c01Exhaustive(c, c01Paths3()[c.Index]) }},
 			{Name: "rand", N: tierN(30000, 2000000), Run: c01Random},
+			{Name: "big", N: func(string) int { return len(c01BigPaths) }, Run: c01Big},
 		},
 	})
 }
@@ -344,4 +345,54 @@ func namesIn(d *xdoc.Doc) []string {
 		return xgen.Names
 	}
 	return out
+}
+
+var c01BigPaths = []string{"//n", "/r/deep/descendant::n", "//text()", "/r/deep//n/..", "//item", "//@*", "/descendant::*", "/r/list/item/sub", "//sub/ancestor::*", "//sub/..",
+	"descendant-or-self::node()", "descendant::n", "ancestor::*", "ancestor-or-self::n", "following::n", "preceding::item", "following-sibling::item", "preceding-sibling::*", "../..//sub",
+	".//text()", "//n//text()", "/r/*/*", "/r/attrs/attribute::node()", "//item/following-sibling::node()", "self::n/n/n/..", "//deep//n/ancestor::deep"}
+
+// c01Big: predicate-free paths on a document whose sibling lists, attribute list and nesting depth exceed 1024.
+func c01Big(c *Case) {
+	d := bigDoc(1100)
+	src := c01BigPaths[c.Index]
+	p := mustParse(src)
+	ce := c.compile(src, func() map[string]interface{} { return map[string]interface{}{"doc": "xgen.BigTree(1100)"} })
+	if ce == nil {
+		return
+	}
+	r := d.Root.Children[0]
+	deep := r.Children[2]
+	mid := deep
+	for i := 0; i < 1050; i++ {
+		mid = mid.Children[0]
+	}
+	list := r.Children[0]
+	for _, ctx := range []*xdoc.Node{d.Root, r, deep, mid, deep.Children[0], list.Children[0], list.Children[600], list.Children[len(list.Children)-1], r.Children[1].Attrs[700]} {
+		want, ok, why := refNodeSet(p, xref.NewCtx(ctx))
+		if !ok {
+			panic("C01 big: " + why)
+		}
+		got := c.RunSelect(ce, ctx)
+		gs, _ := AsSet(got.Nodes)
+		if got.Aborted() || !SameNodes(gs, want) {
+			miss, extra := 0, 0
+			in := map[*xdoc.Node]bool{}
+			for _, n := range gs {
+				in[n] = true
+			}
+			for _, n := range want {
+				if !in[n] {
+					miss++
+				}
+			}
+			extra = len(gs) - (len(want) - miss)
+			c.Violation("SET", map[string]interface{}{"doc": "xgen.BigTree(1100): /r/list with 1100 item children, /r/attrs with 1100 attributes, /r/deep with 1100 nested n elements",
+				"expr": src, "ctx": ctx.Label(), "expected_count": len(want), "observed_count": len(gs), "missing": miss, "extra": extra, "abort": fmt.Sprint(got.Panic.String(), got.Budget)})
+			return
+		}
+		if len(want) > 0 {
+			c.Nontrivial(fmt.Sprintf("big|%s|%d", src, ctx.Ord))
+		}
+	}
+	c.Sample(map[string]interface{}{"family": "big", "path": src, "doc": "xgen.BigTree(1100)"})
 }
